@@ -211,12 +211,21 @@ package sqlittle
 //@   implements functype db.RecordCB
 //@   free-requires cb != nil && CIS_OK(ci) && !viaidx && !vianr
 
+// selectRowid: a row is returned exactly when Table.Rowid found a record (no phantom row of defaults
+// for an absent rowid), and every failure below it is returned (sr_failed: the last selectRowid failed).
+//@ ghost sr_failed bool
 //@ func sqlittle.selectRowid
 //@   props C04 C06 C12
-//@   modifies * -M:S_db_KeyCol -M:S_sqlittle_columnIndex hdr_valid hdr_ps hdr_cookie jr_pos peer_state
+//@   modifies * -M:S_db_KeyCol -M:S_sqlittle_columnIndex hdr_valid hdr_ps hdr_cookie jr_pos peer_state sr_failed
 //@   requires [dbnn] db != nil
 //@   requires [snn] s != nil
 //@   requires [locked] lk_shared
+//@   ghost-entry rowid_hit = false
+//@   ensures-before-exit [nophantom] err == nil && reg(r0) != 0 ==> rowid_hit
+//@   ensures-before-exit [found] err == nil && rowid_hit ==> reg(r0) != 0
+//@   ghost-exit rowid_hit = old(rowid_hit)
+//@   ghost-exit sr_failed = (err != nil)
+//@   ensures [failed] sr_failed <==> err != nil
 
 // Select: the wrapper never asks to stop.
 //@ func (*sqlittle.DB).Select$1
@@ -259,6 +268,7 @@ package sqlittle
 // the per-entry callback: an error of the nested lookup is recorded in cbErr and stops the scan
 //@ func sqlittle.indexedSelect$1
 //@   free-requires !direct
+//@   ghost-exit rowid_hit = old(rowid_hit)
 //@   implements functype db.RecordCB
 //@   uses table_sorted
 //@   closure-ghost tabroot = tab.root
@@ -285,6 +295,7 @@ package sqlittle
 
 //@ func sqlittle.indexedSelectEq$1
 //@   free-requires !direct
+//@   ghost-exit rowid_hit = old(rowid_hit)
 //@   implements functype db.RecordCB
 //@   uses table_sorted
 //@   closure-ghost tabroot = tab.root
@@ -378,18 +389,29 @@ package sqlittle
 //@   implements functype db.RecordCB
 
 // pkColumns (WITHOUT ROWID): positions of the primary-key columns inside an index row; key columns
-// SQLite appends to the index (primary-key columns the index does not name) are appended here too.
+// SQLite appends to the index (primary-key columns the index does not name) are appended here too, so
+// every position names a column of the (extended) index column list. That the column at that
+// position is the primary-key column itself is not stated: it would need a separation fact
+// (the index column list and the primary-key list do not share memory) that the callers cannot give.
 //@ func sqlittle.pkColumns
 //@   props C02 C10 C05
 //@   modifies * -M:S_db_KeyCol -M:S_sqlittle_columnIndex
 //@   requires schema != nil && schema.WithoutRowid && ind != nil
 //@   ensures [len] len(result) == len(schema.PK)
 //@   ensures [nonneg] forall i int :: 0 <= i && i < len(result) ==> result[i] >= 0
+//@   ensures [positions] forall i int :: 0 <= i && i < len(result) ==> result[i] < len(ind.Columns)
+//@   ensures [grows] len(ind.Columns) >= old(len(ind.Columns))
 //@   loop 1 invariant len(res) == $i
 //@   loop 1 invariant forall i int :: 0 <= i && i < len(res) ==> res[i] >= 0
+//@   loop 1 invariant [positions] forall i int :: 0 <= i && i < $i ==> res[i] < len(ind.Columns)
+//@   loop 1 invariant [grows] len(ind.Columns) >= old(len(ind.Columns))
 
 // Primary-key selects.
+// pkSelect: a failure of the rowid lookup is reported (C12), never turned into "no rows".
 //@ func sqlittle.pkSelect
+//@   ghost-entry sr_failed = false
+//@   ensures-before-exit [reported] sr_failed ==> r0 != nil
+//@   ghost-exit sr_failed = old(sr_failed)
 //@   ghost-entry direct = true
 //@   ghost-entry halt = false
 //@   ghost-exit direct = old(direct)
